@@ -340,7 +340,14 @@ class StateMachine(object):  # pylint: disable=too-many-public-methods
     def ae_1(self):
         """Issue TransportConnect request primitive to local transport service."""
         self.dul_socket = socket.socket(socket.AF_INET, socket.SOCK_STREAM)
-        self.dul_socket.connect(self.primitive.called_presentation_address)
+        try:
+            self.dul_socket.connect(self.primitive.called_presentation_address)
+        except socket.error:
+            # transport connection can not be opened: same as transport connection closed
+            # indication while awaiting it (Sta4, AA-4), so that local user is told
+            self.dul_socket.close()
+            self.dul_socket = None
+            self.provider.event.append(Events.EVT_17)
         return States.STA_4
 
     def ae_2(self):
